@@ -37,6 +37,8 @@ def strategy(draw, tier="quick"):
             "offset": draw(st.sampled_from([0.0, 0.0, 5.0, 60.0, 500.0])), "seed": draw(st.integers(0, 2 ** 32 - 1)),
             "frame": draw(st.integers(0, nf - 1)), "parallel": draw(st.booleans()), "precentered": draw(st.integers(0, 4)) == 0,
             "sel": draw(st.sampled_from(["none", "none", "equal", "different", "permuted", "different-unsorted"]))}
+    if draw(st.integers(0, 2)) == 0:
+        case["alias"] = draw(st.sampled_from(["self", "view"]))
     if case["precentered"] and draw(st.booleans()):
         case["recentre"] = True
     if case["precentered"] and draw(st.booleans()):
@@ -259,13 +261,21 @@ def run_case(case):
         gm = md.rmsd(fresh(moved), fresh(), f, **kw)
         for k in range(nf):
             r, _R, S = refs[k]
-            if abs(gm[k] - r) > _tol(r, S, max(xmax, float(np.abs(moved).max())), c) + 16 * oracle.EPS32 * xmax:
+            if not abs(gm[k] - r) <= _tol(r, S, max(xmax, float(np.abs(moved).max())), c) + 16 * oracle.EPS32 * xmax:
                 viol.append(("rmsd/not-rigid-invariant", "frame %d: %.7g after a rigid motion, minimum %.7g" % (k, gm[k], r)))
                 break
 
         # superpose
         t = fresh()
-        t.superpose(fresh(), frame=f, atom_indices=ai, ref_atom_indices=rai, parallel=case["parallel"])
+        if case.get("alias") == "self":
+            # the trajectory superposed onto one of its own frames (the reference shares its memory)
+            t.superpose(t, frame=f, atom_indices=ai, ref_atom_indices=rai, parallel=case["parallel"])
+            labels.append("superpose-onto-own-frame")
+        elif case.get("alias") == "view":
+            t.superpose(t.slice(slice(None), copy=False), frame=f, atom_indices=ai, ref_atom_indices=rai, parallel=case["parallel"])
+            labels.append("superpose-onto-view-of-itself")
+        else:
+            t.superpose(fresh(), frame=f, atom_indices=ai, ref_atom_indices=rai, parallel=case["parallel"])
         y = t.xyz.astype(np.float64)
         for k in range(nf):
             r, Rk, S = refs[k]
